@@ -96,8 +96,10 @@ end
 /-! ### fees -/
 
 /-- `CalculateGasCost` -/
-def msgGas (m : Msg) : Nat :=
-  Facts.settlementBasicGas + (if Facts.createTenantSuffixes.any (fun sfx => sfx.isSuffixOf m.url) then Facts.settlementCreateTenantGas else 0)
+def kindGas (k : Kind) : Nat :=
+  Facts.settlementBasicGas + (if Facts.createTenantSuffixes.any (fun sfx => sfx.isSuffixOf (urlOf k)) then Facts.settlementCreateTenantGas else 0)
+
+def msgGas (m : Msg) : Nat := kindGas m.kind
 
 def fixedGas (ms : List Msg) : Nat := (ms.map msgGas).sum
 
@@ -140,10 +142,7 @@ mutual
   /-- the message handler behind the router; none = the message fails -/
   def execMsg (H : Str → Str) (a : AState) : Msg → Option AState
     | .op k o =>
-      if !opMatches k o then none
-      else
-        let r := step H a.s o
-        if isOk r.out then some { a with s := r.st } else none
+      if opMatches k o = true ∧ isOk (step H a.s o).out = true then some { a with s := (step H a.s o).st } else none
     | .send src dst amt d =>
       match decodeAcc src, decodeAcc dst with
       | some x, some y =>
@@ -280,49 +279,60 @@ def burn (a : AState) (fee : List (Str × Nat)) : AState :=
     let amt := min f.2 bal
     { acc with s := { acc.s with bank := acc.s.bank.debit .collector f.1 amt }, supply := fupd acc.supply f.1 (acc.supply f.1 - amt) }) a
 
+def addPoolDenom (ds : List Str) (d : Str) (amt : Nat) : List Str :=
+  if amt > 0 && !ds.contains d then ds ++ [d] else ds
+
+/-- fee deduction of the settlus chain for a settlement transaction: the state after the two module transfers and what was
+charged; none when the transaction is refused (zero gas limit, no covered denomination, payer unknown or short) -/
+def feeStep (a : AState) (tx : Tx) : Option (AState × (Str × Nat)) :=
+  if tx.gas == 0 then none
+  else match requiredFee a.prices tx.fee (fixedGas tx.msgs), feePayer tx with
+    | some (d, f), some p =>
+      match a.s.bank.send (.acct p) .collector d (collectorPart a.s.st.params.oracleFee f) with
+      | none => none
+      | some b1 => match Bank.send b1 (.acct p) .pool d (oraclePart a.s.st.params.oracleFee f) with
+        | none => none
+        | some b2 =>
+          some ({ a with s := { a.s with bank := b2, poolDenoms := addPoolDenom a.s.poolDenoms d (oraclePart a.s.st.params.oracleFee f) } }, (d, f))
+    | _, _ => none
+
+/-- the validator check of the settlus chain for an oracle transaction: exactly one message, and the fee payer may act for
+the validator it names -/
+def oracleValOk (a : AState) (tx : Tx) : Bool :=
+  match tx.msgs, feePayer tx with
+  | [m], some p => (match validatorOfOracleMsg m with
+      | some v => validateFeeder a.s p v
+      | none => false)
+  | _, _ => false
+
+def rejected (a : AState) (r : Route) : TxRes := { a := a, ok := false, route := r }
+
+/-- messages and post handlers: atomic together on top of the ante state `a1` -/
+def finishSettlus (H : Str → Str) (a1 : AState) (charged : Option (Str × Nat)) (oracle : Bool) (tx : Tx) : TxRes :=
+  match runMsgs H a1 tx.msgs with
+  | none => { a := a1, ok := false, charged := charged, route := .settlus, anteOk := true }
+  | some a2 =>
+    if !oracle && tx.gas < fixedGas tx.msgs then { a := a1, ok := false, charged := charged, route := .settlus, anteOk := true }
+    else { a := burn a2 tx.fee, ok := true, gasUsed := if oracle then none else some (fixedGas tx.msgs), charged := charged, route := .settlus, anteOk := true }
+
+def deliverSettlus (H : Str → Str) (a : AState) (tx : Tx) : TxRes :=
+  if isOracleTx tx.msgs then
+    if oracleValOk a tx && sigsOk tx then finishSettlus H a none true tx else rejected a .settlus
+  else match feeStep a tx with
+    | none => rejected a .settlus
+    | some (a1, ch) => if sigsOk tx then finishSettlus H a1 (some ch) false tx else rejected a .settlus
+
+def deliverGeneric (H : Str → Str) (a : AState) (tx : Tx) : TxRes :=
+  if rejectTopLevel a.s.h tx.msgs || !limiterOk false 1 tx.msgs || !sigsOk tx then rejected a .generic
+  else match runMsgs H a tx.msgs with
+    | none => { a := a, ok := false, anteOk := true }
+    | some a2 => { a := a2, ok := true, anteOk := true }
+
 /-- `DeliverTx` -/
 def deliverTx (H : Str → Str) (a : AState) (tx : Tx) : TxRes :=
-  if tx.msgs.isEmpty || !basicAll tx.msgs then { a := a, ok := false }
+  if tx.msgs.isEmpty || !basicAll tx.msgs then rejected a .generic
   else match route tx with
-  | .settlus =>
-    let oracle := isOracleTx tx.msgs
-    -- fee deduction (skipped for oracle transactions)
-    let feeStep : Option (AState × Option (Str × Nat)) :=
-      if oracle then some (a, none)
-      else if tx.gas == 0 then none
-      else match requiredFee a.prices tx.fee (fixedGas tx.msgs), feePayer tx with
-        | some (d, f), some p =>
-          let q := a.s.st.params.oracleFee
-          match a.s.bank.send (.acct p) .collector d (collectorPart q f) with
-          | none => none
-          | some b1 => match Bank.send b1 (.acct p) .pool d (oraclePart q f) with
-            | none => none
-            | some b2 =>
-              let pd := if oraclePart q f > 0 && !a.s.poolDenoms.contains d then a.s.poolDenoms ++ [d] else a.s.poolDenoms
-              some ({ a with s := { a.s with bank := b2, poolDenoms := pd } }, some (d, f))
-        | _, _ => none
-    match feeStep with
-    | none => { a := a, ok := false, route := .settlus }
-    | some (a1, charged) =>
-      -- validator check (oracle transactions only)
-      let valOk := if !oracle then true
-        else match tx.msgs, feePayer tx with
-          | [m], some p => (match validatorOfOracleMsg m with
-              | some v => validateFeeder a.s p v
-              | none => false)
-          | _, _ => false
-      if !valOk || !sigsOk tx then { a := a, ok := false, route := .settlus }
-      else
-        -- ante effects persist; messages and post handlers are atomic together
-        match runMsgs H a1 tx.msgs with
-        | none => { a := a1, ok := false, charged := charged, route := .settlus, anteOk := true }
-        | some a2 =>
-          if !oracle && tx.gas < fixedGas tx.msgs then { a := a1, ok := false, charged := charged, route := .settlus, anteOk := true }
-          else { a := burn a2 tx.fee, ok := true, gasUsed := if oracle then none else some (fixedGas tx.msgs), charged := charged, route := .settlus, anteOk := true }
-  | .generic =>
-    if rejectTopLevel a.s.h tx.msgs || !limiterOk false 1 tx.msgs || !sigsOk tx then { a := a, ok := false }
-    else match runMsgs H a tx.msgs with
-      | none => { a := a, ok := false, anteOk := true }
-      | some a2 => { a := a2, ok := true, anteOk := true }
+  | .settlus => deliverSettlus H a tx
+  | .generic => deliverGeneric H a tx
 
 end Settlus
